@@ -825,9 +825,17 @@ func (c *Cursor) Forward(ctx context.Context) error {
 		if err != nil {
 			return fmt.Errorf("load: %w", err)
 		}
+		depth := len(c.path)
 		pe.linkIndex++
 		c.path = append(c.path, pathEntry{node: node})
-		return c.Min(ctx)
+		err = c.Min(ctx)
+		if err != nil {
+			// undo the step, so that a retried Forward starts from the same entry
+			c.path[depth-1].linkIndex--
+			c.path = c.path[:depth]
+			return err
+		}
+		return nil
 	} else {
 		if pe.linkIndex+1 < len(node.Key) {
 			pe.linkIndex++
